@@ -288,7 +288,7 @@ def vjp(ctx, world, only=None, floor=True):
             ctx.fail(
                 "A3.vjp",
                 construct_of(e),
-                construct_of(e),
+                construct_of(e) + "|support=" + fmt(s),  # (what fails is part of the identity: a rule reduced to ANOTHER argument's shape is a different finding than one not reduced at all)
                 e.loc,
                 f"cotangent for argument {k} has shape support {fmt(s)} (broadcast of arguments {fmt(s)}), expected {{{k}}}: no unbroadcast aimed at argument {k} on this path",
                 W_VJP.format(k=k),
